@@ -136,8 +136,8 @@ m("escape-symbol-predicate", "TAB-ESCAPE", ["C01", "C04"], "break", TU,
   "\t\tif c < 32 || c == '\\\\' || c == '\\'' {", "\t\tif c < 32 || c == '\\\\' || c == '\"' {", "writeEscapedSymbol escapes when eq:39", False,
   "a quote inside a quoted symbol is written raw")
 m("escape-u-in-clob", "TAB-ESCAPE", ["C02", "C07"], "break", TK,
-  "\tcase 'u':\n\t\tif isClob {\n\t\t\treturn 0, t.invalidChar('u')\n\t\t}\n\t\treturn t.readHexEscapeSeq(4)",
-  "\tcase 'u':\n\t\treturn t.readHexEscapeSeq(4)", "\\u refused in clobs", False, "\\u accepted in clobs")
+  "\tcase 'u':\n\t\tif isClob {\n\t\t\treturn 0, t.invalidChar('u')\n\t\t}\n\t\tr, err := t.readHexEscapeSeq(4)",
+  "\tcase 'u':\n\t\tr, err := t.readHexEscapeSeq(4)", "\\u refused in clobs", False, "\\u accepted in clobs")
 m("keyword-nan-unquoted", "TAB-KEYWORD", ["C01", "C04"], "break", TU,
   "\tcase \"\", \"null\", \"true\", \"false\", \"nan\":\n\t\treturn true", "\tcase \"\", \"null\", \"true\", \"false\":\n\t\treturn true", "nan", True,
   "symbol 'nan' written unquoted reads back as a float")
@@ -626,6 +626,32 @@ m("overrun-sorted-struct-path", "TAB-OVERRUN", ["C03", "C06"], "break", BS,
 m("emptycopy-lob-defensive-copy", "NIL-EMPTYCOPY", ["C16", "C17"], "break", UM,
   "func (d *Decoder) decodeLobTo(v reflect.Value) error {\n\tval, err := d.r.ByteValue()\n\tif err != nil {\n\t\treturn err\n\t}\n", "func (d *Decoder) decodeLobTo(v reflect.Value) error {\n\tval, err := d.r.ByteValue()\n\tif err != nil {\n\t\treturn err\n\t}\n\tval = append([]byte(nil), val...)\n", "append(nil", True,
   "an empty blob is decoded as a nil slice")
+
+
+# ---- rules for F40-F44
+m("unread-dot-conditionally", "ORD-UNREAD", ["C02"], "break", TK,
+  "\t\t// The dot is read back as the text of the symbol, whatever follows it.\n\t\tt.unread(c)\n", "\t\tif c2 == ' ' || isIdentifierPart(c2) {\n\t\t\tt.unread(c)\n\t\t}\n", "tokenDot", True,
+  "a lone '.' before ')' is read back as the empty symbol (F40)")
+m("opcomment-read-ignores-comment", "TAB-OPCOMMENT", ["C02", "C08"], "break", TK,
+  "\t\t\tif len(cs) == 2 && (cs[1] == '/' || cs[1] == '*') {\n\t\t\t\tbreak\n\t\t\t}\n", "\t\t\t_ = cs\n", "readOperator", True,
+  "'+// note' is read as the operator '+//' (F41)")
+m("opcomment-refactor-helper", "TAB-OPCOMMENT", ["C02", "C08"], "refactor", SK,
+  "\t\t\tif c2 == '/' || c2 == '*' {\n\t\t\t\tbreak\n\t\t\t}\n\t\t}\n\n\t\tc, err = t.read()", "\t\t\tif startsComment(c2) {\n\t\t\t\tbreak\n\t\t\t}\n\t\t}\n\n\t\tc, err = t.read()", "", True,
+  "the comment-start test moved into a helper",
+  more=[("// SkipString skips over a \"-enclosed string, returning the next char.", "func startsComment(c2 int) bool { return c2 == '/' || c2 == '*' }\n\n// SkipString skips over a \"-enclosed string, returning the next char.")])
+m("openstar-not-consumed", "ORD-OPENSTAR", ["C02", "C07"], "break", SK,
+  "\t\tif _, err := t.read(); err != nil {\n\t\t\treturn false, err\n\t\t}\n\t\treturn true, t.skipBlockComment()", "\t\treturn true, t.skipBlockComment()", "block comment", True,
+  "'/*/' counts as a complete comment (F42)")
+m("surrogate-not-paired", "TAB-SURROGATE", ["C02"], "break", TK,
+  "\t\tif utf16.IsSurrogate(r) {\n\t\t\treturn t.readLowSurrogate(r)\n\t\t}\n", "\t\t_ = utf16.IsSurrogate\n", "four-digit escape", True,
+  "a \\u surrogate pair decodes to two U+FFFD (F43)",
+  more=[("func (t *tokenizer) readLowSurrogate(hi rune) (rune, error) {", "func (t *tokenizer) readLowSurrogateUnused(hi rune) (rune, error) {")])
+m("addr-decimal-unaddressable", "NIL-ADDR", ["C16", "C17"], "break", MS,
+  "\td := v.Interface().(Decimal)\n\treturn m.w.WriteDecimal(&d)\n", "\td := v.Addr().Interface().(*Decimal)\n\treturn m.w.WriteDecimal(d)\n", "reflect.Value.Addr", True,
+  "Marshal of a Decimal held by value panics (F44)")
+m("addr-refactor-guarded-copy", "NIL-ADDR", ["C16", "C17"], "refactor", MS,
+  "\td := v.Interface().(Decimal)\n\treturn m.w.WriteDecimal(&d)\n", "\tif v.CanAddr() {\n\t\treturn m.w.WriteDecimal(v.Addr().Interface().(*Decimal))\n\t}\n\td := v.Interface().(Decimal)\n\treturn m.w.WriteDecimal(&d)\n", "", True,
+  "Addr used under CanAddr, copy otherwise")
 
 os.makedirs(os.path.dirname(os.path.abspath(__file__)), exist_ok=True)
 with open(os.path.join(os.path.dirname(os.path.abspath(__file__)), "core.json"), "w") as f:
